@@ -845,6 +845,22 @@ class NetworkGraph(AbstractBaseIR):
                             expr_map[ev] = f'broadcast_post({post_var})'
                             source_vars[post_var] = {'sources': [post_op], 'node': tnode, 'var': post_var}
 
+                    # constants of the edge operators (algebraic and dynamic edges alike)
+                    for _ok in edge_ir.op_graph.nodes:
+                        for vk, vi in edge_ir.op_graph.nodes[_ok].get('variables', {}).items():
+                            vi_dict = vi if isinstance(vi, dict) else {}
+                            if vi_dict.get('vtype', 'constant') == 'constant' and vk not in edge_var_map \
+                                    and vk not in edge_de_sv_names:
+                                const_name = f'{vk}_edge{i}'
+                                val = vi_dict.get('value', 0.0)
+                                if isinstance(val, list):
+                                    val = val[0]
+                                args[const_name] = {
+                                    'vtype': 'constant', 'dtype': 'float',
+                                    'value': float(val), 'shape': (1,),
+                                }
+                                expr_map[vk] = const_name
+
                     if edge_de_sv_names:
                         # case 0c: dynamic edge
                         # State variables are stored flat (Nt*Ns,) in the global state vector.
@@ -854,7 +870,6 @@ class NetworkGraph(AbstractBaseIR):
                         for _ok in edge_ir.op_graph.nodes:
                             for vk, vi in edge_ir.op_graph.nodes[_ok].get('variables', {}).items():
                                 vi_dict = vi if isinstance(vi, dict) else {}
-                                vtype = vi_dict.get('vtype', 'constant')
 
                                 if vk in edge_de_sv_names:
                                     sv_flat = f'{vk}_edge{i}_flat'
@@ -867,16 +882,6 @@ class NetworkGraph(AbstractBaseIR):
                                         'value': [float(sv_init)] * (Nt * Ns),
                                         'shape': (Nt * Ns,),
                                     }
-                                elif vtype == 'constant' and vk not in edge_var_map:
-                                    const_name = f'{vk}_edge{i}'
-                                    val = vi_dict.get('value', 0.0)
-                                    if isinstance(val, list):
-                                        val = val[0]
-                                    args[const_name] = {
-                                        'vtype': 'constant', 'dtype': 'float',
-                                        'value': float(val), 'shape': (1,),
-                                    }
-                                    expr_map[vk] = const_name
 
                         last_out = None
                         for _ok in topological_sort(edge_ir.op_graph):
